@@ -33,8 +33,8 @@ def demo_cmd(demo, wt, template):
                         ['fusion_engine/messages/data_version.cc', 'fusion_engine/messages/crc.cc',
                          'fusion_engine/parsers/fusion_engine_framer.cc', 'rtcm/rtcm_framer.cc', 'fusion_engine/common/logging.cc']
                         if os.path.exists(os.path.join(wt, 'src/point_one', x)))
-        return ('clang++ -std=c++14 -g -fsanitize=address,undefined -fno-sanitize-recover=all -I%s/src %s %s -o %s && %s'
-                % (wt, demo, srcs, exe, exe))
+        return ('clang++ -std=c++14 -g -fsanitize=address,undefined -fno-sanitize-recover=all -I%s/src -I%s %s %s -o %s && %s'
+                % (wt, os.path.dirname(demo), demo, srcs, exe, exe))
     return demo
 
 
@@ -57,6 +57,15 @@ def main():
     try:
         dcmd = demo_cmd(os.path.abspath(a.demo), wt, a.demo_cmd)
         rc0, o0 = sh(dcmd)
+        if rc0 != 0 and not a.demo_cmd and a.demo.endswith('.py'):
+            # some demonstrations take the worktree path as their argument, or want to run from their own directory
+            for alt in ('cd %s && PYTHONPATH=%s/python /venv/bin/python %s %s' % (wt, wt, os.path.abspath(a.demo), wt),
+                        'cd %s && PYTHONPATH=%s/python /venv/bin/python %s %s' % (os.path.dirname(os.path.abspath(a.demo)), wt,
+                                                                                  os.path.abspath(a.demo), wt)):
+                rc0, o0 = sh(alt)
+                if rc0 == 0:
+                    dcmd = alt
+                    break
         meta['ran'].append({'cmd': 'demo on unchanged tree', 'exit': rc0})
         rc, out = sh('git -C %s apply %s' % (wt, os.path.abspath(a.patch)))
         assert rc == 0, 'patch does not apply: ' + out
